@@ -532,3 +532,24 @@ seed('c18-polling-latches', 'C18', [(PTC, "                while (!terminate_ &&
 seed('c18-n-polling-demorgan', 'C18', [(PTC, "                while (!terminate_ && !signalThreadStop_)\n                {\n                    evalValue_ = fn_();", "                while (!(terminate_ || signalThreadStop_))\n                {\n                    evalValue_ = fn_();")], None)
 # R19a through a local reference
 seed('c19-gnat-scratch-through-reference', 'C19', [(GNATH, "        mutable std::atomic<std::size_t> offset_{0};", "        mutable std::atomic<std::size_t> offset_{0};\n        mutable std::vector<double> scratch_;"), (GNATH, "                    std::vector<double> distToPivot(sz);\n                    std::vector<int> permutation(sz);\n                    for (unsigned int i = 0; i < sz; ++i)\n                        permutation[i] = (i + offset) % sz;\n\n                    for (unsigned int i = 0; i < sz; ++i)\n                        if (permutation[i] >= 0)", "                    std::vector<double> &distToPivot = gnat.scratch_;\n                    distToPivot.resize(sz);\n                    std::vector<int> permutation(sz);\n                    for (unsigned int i = 0; i < sz; ++i)\n                        permutation[i] = (i + offset) % sz;\n\n                    for (unsigned int i = 0; i < sz; ++i)\n                        if (permutation[i] >= 0)")], 'R19a')
+# R01t: multilevel admission
+BSG = 'src/ompl/multilevel/datastructures/src/BundleSpaceGraph.cpp'
+GEOP = 'src/ompl/multilevel/datastructures/propagators/src/Geometric.cpp'
+QMPC = 'src/ompl/multilevel/planners/qmp/src/QMPImpl.cpp'
+PSEC = 'src/ompl/multilevel/datastructures/pathrestriction/src/PathSection.cpp'
+seed('c01-ml-connect-unguarded', 'C01', [(BSG, "    if (!propagator_->steer(from, to, xRandom_))\n    {\n        return false;\n    }\n\n    addBundleEdge(from, to);", "    propagator_->steer(from, to, xRandom_);\n\n    addBundleEdge(from, to);")], 'R01t')
+seed('c01-ml-steer-returns-true', 'C01', [(GEOP, "    bool val = bundleSpaceGraph_->checkMotion(from, result);\n    return val;", "    bool val = bundleSpaceGraph_->checkMotion(from, result);\n    (void)val;\n    return true;")], 'R01t')
+seed('c01-ml-steer-checks-to', 'C01', [(GEOP, "    bool val = bundleSpaceGraph_->checkMotion(from, result);", "    bool val = bundleSpaceGraph_->checkMotion(from, to);")], 'R01t')
+seed('c01-ml-qmp-walk-star', 'C01', [(QMPC, "            ompl::multilevel::BundleSpaceGraph::addEdge(prev->index, tmp->index);\n            prev = tmp;", "            ompl::multilevel::BundleSpaceGraph::addEdge(q->index, tmp->index);\n            prev = tmp;")], 'R01t')
+seed('c01-ml-graph-check-swapped-state', 'C01', [(BSG, "    return getBundle()->checkMotion(a->state, b->state);", "    return getBundle()->checkMotion(a->state, a->state);")], 'R01t')
+seed('c01-n-ml-connect-verdict-in-local', 'C01', [(BSG, "    if (!propagator_->steer(from, to, xRandom_))\n    {\n        return false;\n    }\n\n    addBundleEdge(from, to);", "    const bool reached = propagator_->steer(from, to, xRandom_);\n    if (!reached)\n    {\n        return false;\n    }\n\n    addBundleEdge(from, to);")], None)
+# R01u: goal classes
+GRC = 'src/ompl/base/goals/src/GoalRegion.cpp'
+GSC = 'src/ompl/base/goals/src/GoalState.cpp'
+GSSC = 'src/ompl/base/goals/src/GoalStates.cpp'
+seed('c01-goalregion-distance-only-when-satisfied', 'C01', [(GRC, "    if (distance != nullptr)\n        *distance = d2g;\n    return d2g < threshold_;", "    if (distance != nullptr && d2g < threshold_)\n        *distance = d2g;\n    return d2g < threshold_;")], 'R01u')
+seed('c01-goalregion-inverted', 'C01', [(GRC, "    return d2g < threshold_;", "    return threshold_ < d2g;")], 'R01u')
+seed('c01-goalstates-first-only', 'C01', [(GSSC, "        if (d < dist)\n            dist = d;\n    }\n    return dist;", "        if (d < dist)\n            dist = d;\n        break;\n    }\n    return dist;")], 'R01u')
+seed('c01-goalstates-max', 'C01', [(GSSC, "        if (d < dist)\n            dist = d;", "        if (d < dist || dist == std::numeric_limits<double>::infinity())\n            dist = d;\n        else if (d > dist)\n            dist = d;")], 'R01u')
+seed('c01-n-goalregion-local-verdict', 'C01', [(GRC, "    if (distance != nullptr)\n        *distance = d2g;\n    return d2g < threshold_;", "    const bool inside = d2g < threshold_;\n    if (distance != nullptr)\n        *distance = d2g;\n    return inside;")], None)
+seed('c01-n-goalstates-min-call', 'C01', [(GSSC, "        if (d < dist)\n            dist = d;", "        dist = std::min(dist, d);")], None)
